@@ -188,7 +188,13 @@ func (e *Engine) query(c *Term) string {
 		e.sh.res.mu.Unlock()
 		e.end("budget", "time budget of the harness exhausted")
 	}
-	r := e.sol.CheckWith(c)
+	var r string
+	if !e.dirty {
+		// the path condition is known to be satisfiable: slice by shared variables
+		r = e.sol.CheckSliced(c)
+	} else {
+		r = e.sol.CheckWith(c)
+	}
 	if r != "sat" && r != "unsat" {
 		e.end("unknown", "solver: "+r+" at "+e.cur)
 	}
@@ -412,7 +418,17 @@ func (e *Engine) ensureFeasible() {
 	if !e.live() || !e.dirty {
 		return
 	}
+	t0f := time.Now()
 	r := e.sol.Check()
+	if profileSites {
+		res := e.sh.res
+		res.mu.Lock()
+		st := res.QSites["feasible@"+e.cur]
+		st[0]++
+		st[1] += time.Since(t0f).Seconds()
+		res.QSites["feasible@"+e.cur] = st
+		res.mu.Unlock()
+	}
 	if r == "unsat" {
 		e.end("infeasible", "assume")
 	}
@@ -449,7 +465,16 @@ func (e *Engine) Assert(c *Term, label string, known string, excuse *Term) {
 		}
 		bad = And(bad, Not(excuse))
 	}
+	t0a := time.Now()
 	r := e.query(bad)
+	if profileSites {
+		res.mu.Lock()
+		st := res.QSites["assert:"+label]
+		st[0]++
+		st[1] += time.Since(t0a).Seconds()
+		res.QSites["assert:"+label] = st
+		res.mu.Unlock()
+	}
 	if r == "sat" {
 		v := e.extractModel(bad)
 		v.Kind, v.Label, v.Site = "assert", label, e.cur
